@@ -278,39 +278,40 @@ open EvalFilter.Compiler EvalFilter.Exec in
     if / else, while, foreach and return over value-producing expressions (C02's end-to-end theorem) whose
     optimisation validates: the run of the OPTIMISED program ends with the result, the output and the global
     variables the big-step semantics prescribes. -/
-theorem C03_optimised_program_correct (prog : Program) (hp : pureSs prog = true) (hne : prog ≠ []) (c : Compiled)
+theorem C03_optimised_program_correct (F : FnTable) (prog : Program) (hp : pureSs prog = true) (hne : 1 ≤ Stmt.sizes prog) (c : Compiled)
     (hc : compileProgram prog = .ok c) (hv : validated c = true) (fns : List (Str × FnImpl)) (obj : HostVal) (env : Env) (out : Str)
     (f : Nat)
-    (hnd : execSs (Api.newMachine c false fns (fun _ => false)) obj f prog env out ≠ .diverged) :
-    ∃ f', match programResult 0 0 (execSs (Api.newMachine c false fns (fun _ => false)) obj f prog env out) with
+    (hF : FnOK (Api.newMachine c false fns (fun _ => false)) F obj)
+    (hnd : execSs (Api.newMachine c false fns (fun _ => false)) F obj 0 f prog env out ≠ .diverged) :
+    ∃ f', match programResult 0 0 (execSs (Api.newMachine c false fns (fun _ => false)) F obj 0 f prog env out) with
       | some (r, s) =>
         (run (Api.newMachine c true fns (fun _ => false)) obj f' ⟨env, out, 0, 0⟩).1 = r ∧
         (run (Api.newMachine c true fns (fun _ => false)) obj f' ⟨env, out, 0, 0⟩).2.out = s.out ∧
         (run (Api.newMachine c true fns (fun _ => false)) obj f' ⟨env, out, 0, 0⟩).2.env.globals = s.env.globals
       | none => True := by
-  have hclean : ∀ r s, programResult 0 0 (execSs (Api.newMachine c false fns (fun _ => false)) obj f prog env out) = some (r, s) →
+  have hclean : ∀ r s, programResult 0 0 (execSs (Api.newMachine c false fns (fun _ => false)) F obj 0 f prog env out) = some (r, s) →
       r ≠ .error .outOfFuel := by
     intro r s hprs
     revert hprs
-    cases hx : execSs (Api.newMachine c false fns (fun _ => false)) obj f prog env out with
+    cases hx : execSs (Api.newMachine c false fns (fun _ => false)) F obj 0 f prog env out with
     | normal a b => simp only [programResult, Option.some.injEq, Prod.mk.injEq]; intro h; rw [← h.1]; simp
     | returned v a b => simp only [programResult, Option.some.injEq, Prod.mk.injEq]; intro h; rw [← h.1]; simp
     | diverged => simp [programResult]
     | failed e a b =>
       simp only [programResult, Option.some.injEq, Prod.mk.injEq]
       intro h; rw [← h.1]
-      have := (exec_noof _ obj f).Ss _ _ _ _ _ _ hx
+      have := (exec_noof _ F obj f).Ss _ _ _ _ _ _ _ hx
       simpa [NotOof] using this
-  obtain ⟨n, k, h⟩ := program_correct prog hp hne c hc fns obj env out 0 0 f hnd
+  obtain ⟨n, k, h⟩ := program_correct F prog hp hne c hc fns obj env out 0 0 f hF hnd
   obtain ⟨st', hrun, hres⟩ := h 0
-  cases hpr : programResult 0 0 (execSs (Api.newMachine c false fns (fun _ => false)) obj f prog env out) with
+  cases hpr : programResult 0 0 (execSs (Api.newMachine c false fns (fun _ => false)) F obj 0 f prog env out) with
   | none => exact ⟨0, trivial⟩
   | some p =>
     obtain ⟨r, s⟩ := p
-    have hpr' : programResult (0 + k) 0 (execSs (Api.newMachine c false fns (fun _ => false)) obj f prog env out) =
+    have hpr' : programResult (0 + k) 0 (execSs (Api.newMachine c false fns (fun _ => false)) F obj 0 f prog env out) =
         some (r, { s with polls := 0 + k }) := by
       revert hpr
-      cases execSs (Api.newMachine c false fns (fun _ => false)) obj f prog env out <;>
+      cases execSs (Api.newMachine c false fns (fun _ => false)) F obj 0 f prog env out <;>
         simp [programResult] <;> intro h1 h2 <;> subst h1 <;> subst h2 <;> simp
     rw [hpr'] at hres
     simp only at hres
